@@ -29,6 +29,7 @@ func TestMain(m *testing.M) {
 		return t.Run(name, func(t *testing.T) { f(t) })
 	}
 	in.Shapes = shapes
+	in.Spawn = func(f func()) { go func() { f() }() }
 	in.Start()
 	code := m.Run()
 	if in.S.Clean != nil {
